@@ -62,3 +62,45 @@ Proof.
   - exists s'. rewrite Hs. reflexivity.
 Qed.
 Print Assumptions C01_digits_multi_any_chunking.
+
+(* ---------- the DIMACS family and the solver log ---------- *)
+From Flussab Require Import Consts Cnf CnfProofs.
+
+(* Answer-insensitivity of the whole parsers (header, every clause, final outcome with its error
+   location): any two admissible abstract runs on views with the same core agree — equal results
+   and equal final cores — unless one of them is AStuck. *)
+Theorem C01_dimacs_answer_insensitive : forall (fuel : nat) (k : dkind) (maxd : Z) (ignore_header : bool) (lr : lrs),
+  CoreDet fuel (parse_dimacs fuel k maxd ignore_header lr).
+Proof. intros fuel k maxd ih lr. exact (PDet_parse_dimacs fuel k maxd ih lr). Qed.
+Print Assumptions C01_dimacs_answer_insensitive.
+
+Theorem C01_solver_log_answer_insensitive : forall (fuel : nat) (maxd : Z) (ignore_unknown : bool) (lr : lrs),
+  CoreDet fuel (parse_log fuel maxd ignore_unknown lr).
+Proof. intros fuel maxd iu lr. exact (PDet_parse_log fuel maxd iu lr). Qed.
+Print Assumptions C01_solver_log_answer_insensitive.
+
+(* Put together with the simulation: two concrete parses of the same stream — any two honest sources,
+   schedules, chunk sizes — are matched by admissible abstract runs that agree.
+   PARTIAL: `agree` is trivially true when a run is AStuck (the program advanced over bytes it had not
+   established to be buffered); that the DIMACS programs never do so is not yet a theorem (it is the
+   no-panic obligation of C05, validated by the pa correspondence stream and the o_c05 oracle). *)
+Theorem C01_dimacs_two_runs_partial : forall fuel k maxd ih (sr1 sr2 : source) (c1 c2 : N),
+  NoLie (events sr1) -> NoLie (events sr2) -> 1 <= c1 -> 1 <= c2 ->
+  stream_of sr1 = stream_of sr2 ->
+  Forall (fun b => b < 256) (fst (stream_of sr1)) -> (length (fst (stream_of sr1)) < fuel)%nat ->
+  let p := parse_dimacs fuel k maxd ih lrs_init in
+  exists r1 r2,
+    refines (crun p (set_chunk (reader_init sr1) c1)) r1 /\
+    refines (crun p (set_chunk (reader_init sr2) c2)) r2 /\
+    agree r1 r2.
+Proof.
+  intros fuel k maxd ih sr1 sr2 c1 c2 H1 H2 Hc1 Hc2 Heq Hb Hlen p.
+  set (v := view_init (fst (stream_of sr1)) (snd (stream_of sr1))).
+  destruct (simulation p _ v (Rel_init sr1 c1 H1 Hc1)) as (r1 & Hr1 & Hf1).
+  assert (HR2 : Rel (set_chunk (reader_init sr2) c2) v) by (unfold v; rewrite Heq; apply Rel_init; assumption).
+  destruct (simulation p _ v HR2) as (r2 & Hr2 & Hf2).
+  exists r1, r2. split; [exact Hf1|]. split; [exact Hf2|].
+  assert (Hw : WFV v) by (unfold WFV, v; cbn; lia).
+  exact (PDet_parse_dimacs fuel k maxd ih lrs_init v v r1 r2 eq_refl Hw Hw Hb Hlen Hr1 Hr2).
+Qed.
+Print Assumptions C01_dimacs_two_runs_partial.
